@@ -585,7 +585,9 @@ class SegmentWise(base.Recombinator):
       parents: List[pg.DNA],
       global_state: pg.geno.AttributeDict,
       step: int) -> List[pg.DNA]:
-    x, y = parents
+    # NOTE: work on clones, `from_dict` may adopt the DNA objects it is given
+    # (e.g. the root node of a parent) as nodes of the child.
+    x, y = [p.clone(deep=True) for p in parents]
     dna_spec = x.spec
 
     # Find top-level decision points that are independent from each other.
@@ -837,7 +839,10 @@ class Permutation(base.Recombinator):
 
       # Get parents' decisions at the permutation point.
       for permutation_point in permutation_points:
-        parent_dicts = [p.to_dict('dna_spec', 'dna', 'parent') for p in parents]
+        # NOTE: work on clones, `from_dict` may adopt the DNA objects it is
+        # given (e.g. the root node of a parent) as nodes of the child.
+        parent_dicts = [p.clone(deep=True).to_dict('dna_spec', 'dna', 'parent')
+                        for p in parents]
 
         # Permutate original parents' decisions and get child decisions.
         # Each child is a list of integer, representing the DNA value for
